@@ -47,7 +47,7 @@ def floors(tier):
     f = {"groups": 300, "schedules": 5000, "schedules_exhaustive_groups": 100, "thread_runs": 100,
          "thread_validations": 5000, "thread_runs_20plus_switches": 50, "observed_switches": 2000,
          "distinct_interleaving_signatures": 50}
-    for k in ("refs", "remote", "regex", "format", "types", "same-schema-object", "verdicts", "dollar-schema", "decimal", "handed-on-store", "custom-scheme-root", "shared-handler-document", "types-argument", "unserved-by-some"):
+    for k in ("refs", "remote", "regex", "format", "types", "same-schema-object", "verdicts", "dollar-schema", "decimal", "handed-on-store", "custom-scheme-root", "shared-handler-document", "types-argument", "unserved-by-some", "late-registration"):
         f["collision:" + k] = 25 if k in ("refs", "regex", "same-schema-object", "verdicts", "handed-on-store", "custom-scheme-root") else 15
     return f
 
@@ -110,6 +110,13 @@ def make_member(rng, d, k, kinds, link=None):
             udoc = {"definitions": {"q": rng.choice(LEAVES)}, "type": "object"}
             handlers = dict(handlers, http=(lambda url, udoc=udoc: udoc))
             props["un2"] = {"$ref": U_}
+    late = None
+    if "late-registration" in kinds and k == 1:
+        late_id = impl.META_ID[d]
+        late_leaf = rng.choice(LEAVES)
+        late = {"$schema": late_id, idk: late_id, "definitions": {"vfq": late_leaf}, "properties": {"vfp": late_leaf}}
+        props["lr1"] = {"$ref": late_id.rstrip("#") + "#/definitions/vfq"}
+        props["lr2"] = {"items": {"$ref": late_id.rstrip("#") + "#/properties/vfp"}}
     if "huge-int" in kinds:
         props["big"] = {"type": "string"}
     if "regex" in kinds:
@@ -204,6 +211,9 @@ def make_member(rng, d, k, kinds, link=None):
             with warnings.catch_warnings():
                 warnings.simplefilter("ignore")
                 validators.validator_for(S)       # what jsonschema.validate(instance, S) does first
+        if late is not None:
+            C_ = validators.create(meta_schema=late, validators=cls.VALIDATORS, type_checker=cls.TYPE_CHECKER, id_of=cls.ID_OF)
+            validators.validates("vf-late-dialect")(C_)
         if fc is not None:
             kw["format_checker"] = fc
         if legacy_types is not None:
@@ -220,17 +230,21 @@ def group_plan(gseed):
     if "shared-handler-document" in kinds:
         kinds -= {"remote", "dollar-schema"}          # (they install handlers of their own for the same scheme)
     n = rng.choice([2, 2, 3])
-    if rng.random() < 0.3:
+    if rng.random() < 0.18:
         # several validators built from the very same schema OBJECT (no resolver passed): each still gets its own resolver
         kinds = {"refs", "same-schema-object"}
-    elif rng.random() < 0.15:
+    elif rng.random() < 0.1:
         kinds = {"handed-on-store"}
-    elif rng.random() < 0.15:
+    elif rng.random() < 0.1:
         # member 0's root id uses a scheme urllib has no table entry for (no references in these members)
         kinds = {"custom-scheme-root", "regex", "verdicts"}
     elif rng.random() < 0.15:
         # every member is built with a (deprecated, still public) types= argument of its own
         kinds = {"types-argument", "verdicts"}
+    elif rng.random() < 0.12:
+        # member 1 first registers a dialect of its own under a metaschema id that is already registered (a patched copy
+        # of a bundled draft) and then refers to that URI; the others were built before or after, and refer to nothing of it
+        kinds = {"late-registration", "regex"}
     elif rng.random() < 0.15:
         # member 0 cannot retrieve a document (no handler: its iteration ends in RefResolutionError); the others serve the very
         # same URL through handlers of their own
@@ -635,7 +649,7 @@ def run(ctx):
     impl.quiet()
     rng = ctx.rng
     sigs = set()
-    for i in range(ctx.scale(90, 900)):
+    for i in range(ctx.scale(100, 900)):
         d = impl.DRAFTS[i % 4]
         gseed = rng.randrange(2 ** 32)
         one_group(ctx, gseed, d, do_threads=(i % 4 == 0), rounds=ctx.scale(15, 40), sigs=sigs)
